@@ -39,10 +39,23 @@ def fams_for(prop, quick):
             f += [4000 + i for i in range(1, 7)] + [5000 + i for i in range(1, 13)] + [6001, 6002, 6003, 7001, 7002, 7003]
             rand = list(range(9001, 9025))
         laws = [20001, 20002]
+        # groups of sibling leaves: 100xx the same typedef chain refined differently, 101tx identical restriction texts over different bases
+        if quick:
+            f += [10001, 10002, 10003, 10004, 10006, 10011, 10013, 10022, 10111, 10112, 10116, 10121, 10131, 10140]
+            rand += [11001]
+        else:
+            f += [10000 + i for i in (1, 2, 3, 4, 5, 6, 11, 12, 13, 21, 22)] + [10110 + i for i in range(1, 9)] + [10120 + i for i in range(1, 7)] + [10131, 10132, 10133, 10140]
+            rand += list(range(11001, 11007))
     else:
         f = [8000 + i for i in range(1, 9)] + [8010 + i for i in range(1, 7)] + [8020, 8021, 8022]
         rand = [9101, 9102, 9103, 9104, 9105, 9106] if quick else list(range(9101, 9125))
         laws = [20002, 20003, 20004, 20005]
+        if quick:
+            f += [10003, 10006, 10012, 10111, 10112, 10113, 10114, 10116, 10118, 10121, 10124, 10131, 10140]
+            rand += [11101]
+        else:
+            f += [10000 + i for i in (1, 2, 3, 4, 5, 6, 11, 12, 13, 21, 22)] + [10110 + i for i in range(1, 9)] + [10120 + i for i in range(1, 7)] + [10131, 10132, 10133, 10140]
+            rand += list(range(11101, 11107))
     return f, rand, laws
 
 
@@ -139,7 +152,7 @@ def compare(ctx, vec, obs, sites, found):
     cur = [0]
 
     def rep(sig, what, extra):
-        r = dict(kind="replay", chain=describe(ch), yang=obs.get("yang"), id=obs["id"], vector="%s:%d" % (os.path.basename(obs["file"]), obs["line"]),
+        r = dict(kind="replay", chain=describe(ch), siblings=[describe(c) for c in vec["sibs"]], leaf="x%d" % vec["mi"], yang=obs.get("yang"), id=obs["id"], vector="%s:%d" % (os.path.basename(obs["file"]), obs["line"]),
                  how="bin/check %s --tier %s --seed %d (VERIF_KEEP=1 keeps the vectors; `ty render < vector` prints the modules)" % (ctx.prop, ctx.tier, ctx.seed))
         r.update(extra)
         found[(obs["id"], sig["site"], cur[0])] = (sig, what, r)
@@ -147,18 +160,24 @@ def compare(ctx, vec, obs, sites, found):
     if obs.get("panic"):
         rep(dict(site="compile", kind=kind, want="no-crash", why="panic"), "compiler panicked on " + describe(ch), dict(panic=obs["panic"]))
         return 1
-    if not vec["cj"]:
+    # the module set compiles iff every sibling chain does (g* = verdict over the whole group)
+    if not vec["gj"]:
         return 0
-    judged += 1
-    if vec["ok"] != obs["compiled"]:
-        if "compile" in sites:
-            sig = dict(site="compile", kind=kind, want="ok" if vec["ok"] else "refuse", why=vec["why"], form=chain_form(ch))
-            if kind == "decimal64":
-                sig["f64"] = "collapse" if f64_collapse(chain_bound_texts(ch)) else "exact"
-            rep(sig, "compile verdict: specification says %s (%s), compiler %s: %s" % ("ok" if vec["ok"] else "refuse", vec["why"], "compiled" if obs["compiled"] else "refused", describe(ch)),
-                dict(want=dict(ok=vec["ok"], why=vec["why"]), got=dict(compiled=obs["compiled"], error=obs.get("cerr"))))
+    judged += 1 if vec["mi"] == 1 else 0
+    if vec["gok"] != obs["compiled"]:
+        if "compile" in sites and vec["mi"] == 1:
+            chains = [ch] + vec["sibs"]
+            whole = describe(ch) + "".join("  ||  " + describe(c) for c in vec["sibs"])
+            sig = dict(site="compile", kind=vec["gkind"], want="ok" if vec["gok"] else "refuse", why=vec["gwhy"],
+                       form="single-min-or-max-part" if any(single_minmax(c) for c in chains) else "plain")
+            if len(chains) > 1:
+                sig["leaves"] = len(chains)
+            if sig["kind"] == "decimal64":
+                sig["f64"] = "collapse" if any(f64_collapse(chain_bound_texts(c)) for c in chains) else "exact"
+            rep(sig, "compile verdict: specification says %s (%s), compiler %s: %s" % ("ok" if vec["gok"] else "refuse", vec["gwhy"], "compiled" if obs["compiled"] else "refused", whole),
+                dict(want=dict(ok=vec["gok"], why=vec["gwhy"]), got=dict(compiled=obs["compiled"], error=obs.get("cerr"))))
         return judged
-    if not vec["ok"]:
+    if not vec["gok"]:
         return judged
     judged += 1
     if (vec["hasDef"] != obs["hasDef"] or (vec["hasDef"] and vec["def"] != obs["def"])) and "default" in sites:
@@ -246,7 +265,7 @@ def run(ctx):
     ctx.build(["ty"])
     maxd = 3
     # 1. design laws
-    mcf = laws + ([f for f in fams if f // 1000 in (1, 3, 5, 6, 7, 8) and f != 7003][::4] if quick else fams)
+    mcf = laws + ([f for f in fams if f // 1000 in (1, 3, 5, 6, 7, 8) and f != 7003][::4] if quick else [f for f in fams if f < 10000])
     ctx.tlc("YangTypesMC", "YangTypesMC.cfg", workers=12, timeout=1200, heap="8g",
             consts={"Fams": set_lit(mcf), "MaxDepth": maxd})
     # 2. behaviour generator: the exhaustive families in one TLC run (one family per initial state), the seeded random
@@ -275,12 +294,28 @@ def run(ctx):
         raise Infra("generator produced no vectors")
     obsf = ctx.path("obs.ndjson")
     ctx.run_bin("ty", ["run", "-out", obsf, "-yang"] + vfiles, timeout=900)
-    vecs = []
+    rawv = []
     for f in vfiles:
-        vecs += read_ndjson(f)
-    obs = read_ndjson(obsf)
-    if len(vecs) != len(obs):
-        raise Infra("harness returned %d observations for %d vectors" % (len(obs), len(vecs)))
+        rawv += read_ndjson(f)
+    rawo = read_ndjson(obsf)
+    if len(rawv) != len(rawo):
+        raise Infra("harness returned %d observations for %d vectors" % (len(rawo), len(rawv)))
+    # a vector is one chain or a group of chains compiled together (sibling leaves); flatten to one entry per leaf
+    vecs, obs, nsib = [], [], 0
+    for rv, ro in zip(rawv, rawo):
+        ms = rv.get("grp") or [rv]
+        if len(ms) != len(ro["grp"]):
+            raise Infra("observation does not match its vector (member count)")
+        nsib += 1 if len(ms) > 1 else 0
+        bad = [m for m in ms if m["cj"] and not m["ok"]]
+        gok = all(m["ok"] for m in ms)
+        gj = all(m["cj"] for m in ms) or bool(bad)
+        for mi, (m, o) in enumerate(zip(ms, ro["grp"])):
+            m.update(mi=mi + 1, sibs=[x["chain"] for k, x in enumerate(ms) if k != mi], gok=gok, gj=gj,
+                     gwhy=bad[0]["why"] if bad else "ok", gkind=bad[0]["kc"] if bad else m["kc"])
+            o.update(id=ro["id"] * 64 + mi + 1, file=ro["file"], line=ro["line"])
+            vecs.append(m)
+            obs.append(o)
     # 3. replay comparison (model -> code)
     judged = unjudged = nprobes = 0
     shapes = set()
@@ -288,7 +323,7 @@ def run(ctx):
     found = {}
     for v, o in zip(vecs, obs):
         judged += compare(ctx, v, o, sites, found)
-        if not v["cj"]:
+        if not v["gj"]:
             unjudged += 1
         unjudged += sum(1 for p in v["probes"] if not p["j"])
         nprobes += len(v["probes"])
@@ -299,18 +334,18 @@ def run(ctx):
                                 probes=[dict(v=txt(p["v"]), accept=p["acc"]) for p in v["probes"][:6]]))
     # 4. trace validation (code -> model): all seeded random chains and a slice of the others
     budget = 900 if quick else 16000
-    nr = sum(1 for v in vecs if v["fam"] // 1000 == 9)
+    nr = sum(1 for v in vecs if v["fam"] // 1000 in (9, 11))
     step = max(1, (len(vecs) - nr) // max(1, budget - nr))
     events, sampled = [], set()
     for i, (v, o) in enumerate(zip(vecs, obs)):
-        if (v["fam"] // 1000 != 9 and i % step != 0) or o.get("panic"):
+        if (v["fam"] // 1000 not in (9, 11) and i % step != 0) or o.get("panic"):
             continue
         sampled.add(o["id"])
-        events.append(dict(id=o["id"], chain=v["chain"], compiled=o["compiled"], hasDef=o["hasDef"], **{"def": o["def"]},
+        events.append(dict(id=o["id"], chain=v["chain"], sibs=v["sibs"], mi=v["mi"], compiled=o["compiled"], hasDef=o["hasDef"], **{"def": o["def"]},
                            probes=[dict(v=p["v"], ok=q["ok"], pc=q["pc"], msg=q["msg"], tag=q["tag"]) for p, q in zip(v["probes"], o["probes"])]))
     # binding self-test: an observation with one flipped verdict must be rejected by the trace specification and
     # a vector with one flipped expectation must be reported by the comparison
-    st = next(((v, o) for v, o in zip(vecs, obs) if o["compiled"] and v["cj"] and v["ok"] and any(p["j"] for p in v["probes"])), None)
+    st = next(((v, o) for v, o in zip(vecs, obs) if o["compiled"] and v["gj"] and v["gok"] and v["cj"] and any(p["j"] for p in v["probes"])), None)
     if st is None:
         raise Infra("no compiled chain with a judged probe: nothing was exercised")
     sv, so = st
@@ -324,7 +359,7 @@ def run(ctx):
     compare(ctx, bad_vec, so, sites, probe_found)
     if not any(key[1] == "accept" and key[2] == k + 1 for key in probe_found):
         raise Infra("binding self-test failed: a perturbed expectation was not reported by the replay comparison")
-    selftest = dict(id=0, chain=sv["chain"], compiled=True, hasDef=so["hasDef"], **{"def": so["def"]},
+    selftest = dict(id=0, chain=sv["chain"], sibs=[], mi=1, compiled=True, hasDef=so["hasDef"], **{"def": so["def"]},
                     probes=[dict(v=p["v"], ok=q["ok"], pc=q["pc"], msg=q["msg"], tag=q["tag"]) for p, q in zip(sv["probes"], bad_obs["probes"])])
     fails = validate_trace(ctx, events, 4 if quick else 8, selftest)
     ctx.traces += len(events)
@@ -343,7 +378,7 @@ def run(ctx):
         evaluations=judged, distinct_nontrivial=len(shapes),
         rule="evaluations = judged facts (compile verdicts, defaults, probe verdicts); distinct = chain shapes after erasing numbers",
         samples=samples, families=fams + rand, chains=len(vecs), probes=nprobes, unjudged=unjudged,
-        random_chains=nr, trace_events=len(events), trace_failures=len(fails), exhaustive=True,
+        random_chains=nr, groups_of_sibling_leaves=nsib, trace_events=len(events), trace_failures=len(fails), exhaustive=True,
         explanation="TLC checked the design laws on every chain of the listed families, generated one vector per chain (and per seeded random chain); "
                     "every vector was rendered to YANG, compiled by the real compiler and probed through Type().Validate / Default(); "
                     "the observations of the random chains and of a slice of the others were validated by YangTypesTrace")
@@ -366,7 +401,9 @@ MANIFEST = {
              "enumeration, boolean, empty, union and identityref, with restriction menus built from boundary coincidences (equal bounds, adjacent parts, min/max, "
              "overlap, descending, outside the base, wrong kind for the base) and defaults at each level; for each chain the spec prescribes the compile verdict, "
              "Default() and the verdict of probes at every bound +/- one unit (computed on digit strings). Each chain is rendered to a YANG module, compiled by the "
-             "real compiler and probed; seeded random chains with random multi-part ranges are recorded and validated by the trace spec. TLC also proves on the "
+             "real compiler and probed; seeded random chains with random multi-part ranges are recorded and validated by the trace spec. Groups of 2-3 sibling "
+             "leaves compiled in one module set (the same typedef chain of depth 2-4 refined differently, textually identical min/max restrictions over different "
+             "bases, both orders, one and two modules, random groups) are judged leaf by leaf: a leaf's type depends only on its own chain. TLC also proves on the "
              "spec that legal narrowing makes the innermost range sufficient and that Covered equals value-set inclusion.",
              note="bound texts in canonical form only; decimal64 parts one unit apart are judged non-contiguous; string length bounds stay below 2^31",
              design="4 C13", technique=TY),
@@ -374,7 +411,9 @@ MANIFEST = {
              "enumerations, booleans, empty, nested unions and identity hierarchies over two modules the spec gives the verdict of every probe: each bound +/- one "
              "unit, 18-20 digit values, signs, leading zeros, malformed numbers, multi-byte strings at each length bound, substring-only pattern matches, and for "
              "rejections the path and the custom error-message / error-app-tag of the violated restrictions. Probes are validated by Type().Validate of the compiled "
-             "leaf; seeded random lexemes (digit strings around bounds, random Unicode) are recorded and validated by the trace spec.",
+             "leaf; seeded random lexemes (digit strings around bounds, random Unicode) are recorded and validated by the trace spec. Several types with "
+             "textually identical restriction arguments over different bases are compiled together (one module, two modules parsed with shared interners, both "
+             "orders) and each is judged by its own Accepts with the probes of all of them.",
              note="default messages and app-tags are not judged; union rejections carry no judged message; leading/trailing whitespace is not generated",
              design="4 C16", technique=TY),
 }
